@@ -100,6 +100,7 @@ pub fn enter_private_tmp() {
         if std::fs::create_dir_all(&cwd).is_ok() {
             let _ = std::env::set_current_dir(&cwd);
         }
+        private_mounts(&root);
         return;
     }
     let d = std::env::temp_dir().join(format!("a5sim-{}", std::process::id()));
@@ -119,6 +120,85 @@ pub fn enter_private_tmp() {
         }
         *PRIVATE_TMP.lock().unwrap() = Some(ds);
         unsafe { atexit(remove_private_tmp) };
+        private_mounts(&d);
+    }
+}
+
+extern "C" {
+    fn unshare(flags: i32) -> i32;
+    fn mount(src: *const u8, target: *const u8, fstype: *const u8, flags: u64, data: *const u8) -> i32;
+}
+
+static PRIVATE_MOUNTS: std::sync::atomic::AtomicBool = std::sync::atomic::AtomicBool::new(false);
+
+/// Are hard-coded shared locations (/dev/shm, /var/tmp, /tmp) private to this process?
+pub fn has_private_mounts() -> bool {
+    PRIVATE_MOUNTS.load(Ordering::Relaxed)
+}
+
+/// Best effort, needs CAP_SYS_ADMIN: give the process a mount namespace of its own in which
+/// /dev/shm, /var/tmp and (if nothing the process needs lives there) /tmp are sub-directories of
+/// its private directory. A changed library that persists something under a HARD-CODED shared
+/// path then meets the same isolation - and, in a cold-world chain, the same sharing and the
+/// same disk faults - as one that asks for temp_dir() or the home directory. Without the
+/// privilege nothing happens (evidence says which).
+fn private_mounts(root: &std::path::Path) {
+    if std::env::var_os("A5SIM_NO_NAMESPACE").is_some() {
+        return;
+    }
+    let c = |s: &str| std::ffi::CString::new(s).unwrap();
+    if unsafe { unshare(0x0002_0000) } != 0 {
+        return;
+    }
+    // nothing mounted here may propagate back to the machine's namespace
+    let slash = c("/");
+    if unsafe { mount(std::ptr::null(), slash.as_ptr() as *const u8, std::ptr::null(), 0x4000 | 0x4_0000, std::ptr::null()) } != 0 {
+        return;
+    }
+    let under_tmp = |p: &str| p == "/tmp" || p.starts_with("/tmp/");
+    let mut needs_tmp = under_tmp(&root.to_string_lossy()) || under_tmp(&self_exe());
+    for a in std::env::args() {
+        needs_tmp |= under_tmp(&a);
+    }
+    for k in ["A5SIM_FS_LOG", "LD_PRELOAD", "TMPDIR", "VERIF_WORK"] {
+        if let Ok(v) = std::env::var(k) {
+            needs_tmp |= under_tmp(&v);
+        }
+    }
+    let mut also: Vec<&str> = Vec::new();
+    for (sub, target) in [("shm", "/dev/shm"), ("vartmp", "/var/tmp"), ("roottmp", "/tmp")] {
+        if target == "/tmp" && needs_tmp {
+            continue;
+        }
+        let src = root.join(sub);
+        if std::fs::create_dir_all(&src).is_err() || !std::path::Path::new(target).is_dir() {
+            continue;
+        }
+        let (s, t) = (c(&src.to_string_lossy()), c(target));
+        if unsafe { mount(s.as_ptr() as *const u8, t.as_ptr() as *const u8, std::ptr::null(), 0x1000, std::ptr::null()) } == 0 {
+            also.push(target);
+            PRIVATE_MOUNTS.store(true, Ordering::Relaxed);
+        }
+    }
+    // the shim's write-path faults cover these locations as well
+    std::env::set_var("A5SIM_FS_ALSO", also.join(":"));
+}
+
+/// Sub-directories of the private directory that stay in place (the process's home and working
+/// directory, and the sources of the bind mounts over /dev/shm, /var/tmp and /tmp).
+const KEPT_DIRS: [&str; 5] = ["home", "cwd", "shm", "vartmp", "roottmp"];
+
+fn empty_dir(p: &std::path::Path, n: &mut u64) {
+    if let Ok(inner) = std::fs::read_dir(p) {
+        for x in inner.flatten() {
+            *n += 1;
+            let q = x.path();
+            if x.file_type().map(|t| t.is_dir()).unwrap_or(false) {
+                let _ = std::fs::remove_dir_all(&q);
+            } else {
+                let _ = std::fs::remove_file(&q);
+            }
+        }
     }
 }
 
@@ -132,25 +212,13 @@ pub fn wipe_private_tmp() -> u64 {
             if let Ok(rd) = std::fs::read_dir(d) {
                 for e in rd.flatten() {
                     let p = e.path();
-                    if p.is_dir() {
+                    let kept = p.file_name().and_then(|f| f.to_str()).map(|f| KEPT_DIRS.contains(&f)).unwrap_or(false);
+                    if p.is_dir() && kept {
                         if p.file_name().map(|f| f == "home").unwrap_or(false) && dir_is_bare_home(&p) {
                             continue;
                         }
-                        if p.file_name().map(|f| f == "cwd").unwrap_or(false) {
-                            // the zygote's own working directory: empty it, keep it
-                            if let Ok(inner) = std::fs::read_dir(&p) {
-                                for x in inner.flatten() {
-                                    n += 1;
-                                    let q = x.path();
-                                    if q.is_dir() {
-                                        let _ = std::fs::remove_dir_all(&q);
-                                    } else {
-                                        let _ = std::fs::remove_file(&q);
-                                    }
-                                }
-                            }
-                            continue;
-                        }
+                        empty_dir(&p, &mut n);
+                    } else if p.is_dir() {
                         n += 1;
                         let _ = std::fs::remove_dir_all(&p);
                     } else {
